@@ -52,7 +52,21 @@ class C14(Prop):
             "up to 8x8 with shuffled edge order, duplicate edge entries and isolated vertices; koenig cases: a random valid "
             "(not necessarily maximum) matching handed to _explore_alternating_paths; malformed cases: sides < 1, out-of-range / "
             "negative endpoints (both sides must reject). non-trivial = at least one edge; distinct by case content")
-    clauses = []          # filled below (depends on the state of the proofs)
+    clauses = [
+        ("F", "constructor: adjacency lists = the edge set, duplicates suppressed, both directions consistent; the model accepts exactly the "
+              "inputs that pass the constructor's asserts (C14_constructor_adjacency, C14_constructor_accepts, C14_constructor_rejects)"),
+        ("F", "Koenig construction for ANY matching list handed to it: both returned lists contain only existing vertices, each once "
+              "(C14_mvc_in_range), and touch every edge as soon as the matching uses every U vertex at most once (C14_mvc_is_cover); "
+              "exploration fuel always suffices (C14_koenig_fuel_suffices)"),
+        ("F", "Hopcroft-Karp: BFS/DFS/outer-loop fuel always suffices (C14_hk_fuel_suffices); every returned pair is an edge and no vertex "
+              "is used twice (C14_hk_valid_matching); no augmenting path when the outer loop stops (C14_hk_no_augmenting_path)"),
+        ("F", "weak duality and optimality from equal sizes, pure list combinatorics (C14_weak_duality, C14_equal_sizes_optimal)"),
+        ("F", "|u_cover| + |v_cover| = |matching| for every accepted input: the code's own assert never fails (C14_mvc_size_eq_matching); "
+              "all clauses together incl. minimality of the cover and maximality of the matching: C14_mvc_main"),
+        ("F", "the in-Coq equality tests used by the correspondence are sound (C14_all_eqb_sound, C14_koenig_eqb_sound)"),
+        ("V", "model = code: exact differential comparison of adjacency lists, matching (order included), both cover lists, outcome of the "
+              "size assert and the per-start visit orders of _explore_alternating_paths, on every explored graph; rejected inputs on both sides"),
+    ]
     trusted_base = ["inputs are Python ints (sides) and a sequence of int pairs (the documented domain of BipartiteGraph)",
                     "set(range(n)) is iterated in ascending order by CPython for small ints; irrelevant for the result "
                     "(both returned lists are sorted) and the per-start visited lists are fresh for every start vertex"]
